@@ -106,7 +106,12 @@ func (h *harness) merge(outs []*outcome) {
 			h.res.DistinctNontrivial++
 		}
 		for _, d := range o.disagree {
-			h.res.Disagree(d[0], d[1], d[2])
+			// fault / crash scenarios concern C12, concurrent fault-free ones C11
+			prop := "C12"
+			if strings.HasPrefix(o.caseStr, "c11:") {
+				prop = "C11"
+			}
+			h.res.DisagreeFor([]string{prop}, d[0], d[1], d[2])
 		}
 		for _, v := range o.violation {
 			h.res.Violate(v[0], v[1], v[2], v[3])
